@@ -81,6 +81,8 @@ type Ctx struct {
 	drv     Driver
 
 	peakMem     uint64 // sampled by memWatch
+	// AbortInfo, when set by a driver, describes the work in flight (for the message of an early end of the run)
+	AbortInfo func() string
 	mu          sync.Mutex
 	known       map[string]KnownFinding
 	knownRE     []KnownFinding
@@ -401,7 +403,11 @@ func (c *Ctx) memWatch() {
 			c.peakMem = use
 		}
 		if use > limit {
-			c.Broken(fmt.Sprintf("process memory %d MB exceeds the limit of %d MB (a library call abandoned by its watchdog keeps allocating); run ended early", use>>20, limit>>20))
+			info := ""
+			if c.AbortInfo != nil {
+				info = "; in flight: " + c.AbortInfo()
+			}
+			c.Broken(fmt.Sprintf("process memory %d MB exceeds the limit of %d MB (a library call abandoned by its watchdog keeps allocating); run ended early%s", use>>20, limit>>20, info))
 			os.Exit(c.Finish())
 		}
 	}
